@@ -42,7 +42,7 @@ DOTTED = [('os', 'os.path'), ('xml', 'xml.dom'), ('json', 'json.decoder'), ('ema
 
 class Gen(object):
     def __init__(self, rng, allow_return=True, allow_try=True, full_raise=False, max_depth=3,
-                 max_stmts=10, multi_handlers=True, names=None, exits=False, comps=True, loop_exits_only=False):
+                 max_stmts=10, multi_handlers=True, names=None, exits=False, comps=True, loop_exits_only=False, comp_self=True):
         self.rng = rng
         self.site = 0
         self.allow_return = allow_return
@@ -62,6 +62,7 @@ class Gen(object):
         self.exits = exits          # C01: break / continue / raise anywhere
         self.loop_depth = 0
         self.comps = comps          # comprehension values (F59)
+        self.comp_self = comp_self  # may a comprehension element read the name its statement binds (outside C02/C03's domain)
         self.loop_exits_only = loop_exits_only   # C02X: return/break/continue, none under try-finally, no free raise
 
     def new(self):
@@ -130,8 +131,16 @@ class Gen(object):
                 cond = self.reads(1, 1) if self.rng.random() < 0.3 else None
                 elt = self.reads(1, 2)
                 b = self.bind()
-                if self.rng.random() < 0.6:
-                    b = (b[0], self.rng.choice(elt + (cond or []))[1])
+                if self.comp_self:
+                    if self.rng.random() < 0.6:
+                        b = (b[0], self.rng.choice(elt + (cond or []))[1])
+                else:
+                    inner = set(x for _, x in elt + (cond or []))
+                    free = [x for x in self.names if x not in inner]
+                    if not free:
+                        return ('assign', it, [b], 'plain')
+                    if b[1] in inner:
+                        b = (b[0], self.rng.choice(free))
                 cf = self.rng.choice(['plain', 'plain', 'ann', 'walrus', 'with'])
                 body = self.body(depth + 1, in_finally, no_ret, 1, 2) if cf == 'with' else []
                 return ('comp', it, cond, elt, [b], cf, body)
